@@ -210,6 +210,7 @@ const char *const hx_kinds[] = {
 };
 const int hx_nkinds = (int) (sizeof(hx_kinds) / sizeof(hx_kinds[0]));
 
+int hx_len_long; /* when set: lengths 520..3520 */
 long hx_force_len = -1; /* when >= 0 every generated message length is this value (rounded to the mode's granularity) */
 
 static uint32_t
@@ -228,7 +229,9 @@ pick_len(hx_rng *r, uint32_t blk, uint32_t minlen, uint32_t maxlen, uint32_t has
                         n = maxlen / blk * blk;
                 return n;
         }
-        if (cls < 45) /* small: 1..6 units */
+        if (hx_len_long) /* every job several blocks long and all different: no lane idles at length 0 */
+                n = 520 + hx_below(r, 3000);
+        else if (cls < 45) /* small: 1..6 units */
                 n = (1 + hx_below(r, 6)) * (blk > 1 ? blk : 16) - (blk > 1 ? 0 : hx_below(r, 16));
         else if (cls < 75) /* padding thresholds / block boundaries */
         {
